@@ -1,2 +1,165 @@
-(* C24 — placeholder while the harness is brought up *)
-From WK Require Import Base.Base Model.JsonRpcBridge.
+(* C24 — The JSON-RPC protocol is a faithful frame bridge.
+   Only statements, each closed by [exact] of a lemma from Proof/JsonRpcBridge*.v.
+
+   The bridge has two halves for two directions: ToFrame turns the messages a client SENDS
+   (connect / send / ping / disconnect requests, recvack notification) into frames, FromFrame
+   turns the frames a server SENDS (CONNACK, SENDACK, RECV, EVENT, DISCONNECT, PONG) into
+   messages.  "Frame -> message -> back" is therefore stated per direction, with the peer's
+   half (msg_of_frame, frame_of_msg: field-by-field inverses, in Model/JsonRpcBridge.v) closing
+   the loop; frame_equiv compares exactly the fields the bridge carries.  JSON syntax
+   (encoding/json) is outside the model and exercised by the differential run. *)
+From WK Require Import Base.Base Gen.Consts_C24 Model.JsonRpcBridge.
+From WK Require Import Proof.JsonRpcBridge_num Proof.JsonRpcBridge.
+Open Scope N_scope.
+
+(* ---- client -> server -------------------------------------------------------------------------- *)
+
+(* every CONNECT / SEND / RECVACK / DISCONNECT / PING frame (any field values of the Go types), sent
+   as its JSON-RPC message with request id [id], comes out of ToFrame as an equivalent frame
+   together with the same request id (RECVACK is a notification: empty reply token) *)
+Theorem c24_inbound_roundtrip : forall id f, wf_frame f -> inbound_supported f = true ->
+  exists m f', msg_of_frame id f = Some m /\ ToFrame m = Some (f', expected_token id f) /\ frame_equiv f f' = true.
+Proof. exact inbound_roundtrip. Qed.
+Print Assumptions c24_inbound_roundtrip.
+
+(* ---- server -> client ---------------------------------------------------------------------------- *)
+
+(* every CONNACK / SENDACK / RECV / EVENT / DISCONNECT / PONG frame becomes a message from which the
+   peer rebuilds an equivalent frame; responses (CONNACK, SENDACK, PONG) carry the request id *)
+Theorem c24_outbound_faithful : forall id f, wf_frame f -> outbound_supported f = true ->
+  exists m f', FromFrame id f = Some m
+               /\ frame_of_msg m = Some (f', if is_response_frame f then Some id else None)
+               /\ frame_equiv f f' = true.
+Proof. exact outbound_faithful. Qed.
+Print Assumptions c24_outbound_faithful.
+
+(* ---- the request id ----------------------------------------------------------------------------------- *)
+
+Theorem c24_reqid_preserved_in : forall m f tok, ToFrame m = Some (f, tok) ->
+  tok = match msg_id m with Some i => i | None => [] end.
+Proof. exact reqid_preserved_in. Qed.
+Print Assumptions c24_reqid_preserved_in.
+
+Theorem c24_reqid_preserved_out : forall id f m, FromFrame id f = Some m -> is_response_frame f = true ->
+  msg_id m = Some id.
+Proof. exact reqid_preserved_out. Qed.
+Print Assumptions c24_reqid_preserved_out.
+
+(* ---- message ids as decimal strings ------------------------------------------------------------------- *)
+
+(* strconv.ParseInt inverts strconv.FormatInt on the whole int64 range (RECVACK / SENDACK / RECV ids) *)
+Theorem c24_message_id_roundtrip : forall z, (-9223372036854775808 <= z <= 9223372036854775807)%Z ->
+  parse_int64_value (format_int z) = z.
+Proof. exact parse_int_format. Qed.
+Print Assumptions c24_message_id_roundtrip.
+
+Theorem c24_stream_id_roundtrip : forall n, n <= max_u64 -> parse_uint64_value (format_uint n) = n.
+Proof. exact parse_uint64_value_format. Qed.
+Print Assumptions c24_stream_id_roundtrip.
+
+(* ---- determineMessageType ------------------------------------------------------------------------------- *)
+
+(* the decision table, for every probe *)
+Theorem c24_classify_table : forall p,
+  determineMessageType p =
+  if negb (version_ok p) then inr (match pr_jsonrpc p with RawOther => EUnmarshalFieldFailed | _ => EInvalidVersion end)
+  else match present (pr_id p), negb (is_nil (pr_method p)) with
+       | true, true => inl msgTypeRequest
+       | true, false =>
+         match present (pr_result p), present (pr_error p) with
+         | true, true => inr EResponseFormat
+         | false, false => inr EOther
+         | _, _ => inl msgTypeResponse
+         end
+       | false, true => if known_notification (pr_method p) then inl msgTypeNotification else inr EOther
+       | false, false => inr EOther
+       end.
+Proof. exact classify_table. Qed.
+Print Assumptions c24_classify_table.
+
+(* exactly one of request / response / notification / error *)
+Theorem c24_classify_total : forall p,
+  determineMessageType p = inl msgTypeRequest \/ determineMessageType p = inl msgTypeResponse
+  \/ determineMessageType p = inl msgTypeNotification \/ exists e, determineMessageType p = inr e /\ 1 <= e <= 9.
+Proof. exact classify_total. Qed.
+Print Assumptions c24_classify_total.
+
+Theorem c24_msg_types_distinct :
+  msgTypeRequest <> msgTypeResponse /\ msgTypeRequest <> msgTypeNotification /\ msgTypeResponse <> msgTypeNotification.
+Proof. exact msg_types_distinct. Qed.
+Print Assumptions c24_msg_types_distinct.
+
+(* a message Decode returns has the id of the document; only the four notification kinds have none *)
+Theorem c24_decode_id : forall p b k i, decode_dispatch p b = OMsg k i ->
+  match i with
+  | Some id => pr_id p = RawString id
+  | None => pr_id p = RawAbsent /\ (k = KRecvNotification \/ k = KRecvAckNotification \/ k = KDisconnectNotification \/ k = KEventNotification)
+  end.
+Proof. exact decode_id. Qed.
+Print Assumptions c24_decode_id.
+
+(* ---- what the bridge does NOT carry, and three observations about the code ------------------------------- *)
+
+(* ToFrame leaves HasServerVersion / FrameType / RemainingLength / FrameSize zero, SEND has ClientSeq 0 and
+   only the Receipt / Signal / Stream / Topic Setting bits (NoEncrypt cannot be expressed) *)
+Theorem c24_to_frame_untouched : forall m f tok, ToFrame m = Some (f, tok) ->
+  match f with
+  | FConnect fr _ _ _ _ _ _ _ | FRecvack fr _ _ | FDisconnect fr _ _ | FPing fr =>
+    fr_hsv fr = false /\ fr_type fr = 0 /\ fr_remlen fr = 0 /\ fr_size fr = 0%Z
+  | FSend fr s _ _ cs _ _ _ _ _ _ =>
+    fr_hsv fr = false /\ fr_type fr = 0 /\ fr_remlen fr = 0 /\ fr_size fr = 0%Z /\ cs = 0 /\ N.land s setting_mask = s
+  | _ => False
+  end.
+Proof. exact to_frame_untouched. Qed.
+Print Assumptions c24_to_frame_untouched.
+
+(* the literal composition ToFrame (FromFrame id f) is never defined: the halves serve opposite directions *)
+Theorem c24_directions_disjoint : forall id f m, FromFrame id f = Some m -> ToFrame m = None.
+Proof. exact directions_disjoint. Qed.
+Print Assumptions c24_directions_disjoint.
+
+(* the answer to a PING has neither "result" nor "error": the package's own Decode rejects it *)
+Theorem c24_pong_response_not_decodable : forall id fr, model_out_decode (FromFrame id (FPong fr)) = OErr EOther.
+Proof. exact pong_response_not_decodable. Qed.
+Print Assumptions c24_pong_response_not_decodable.
+
+(* a DISCONNECT frame is written as a notification; Decode accepts it, ToFrame has no case for it *)
+Theorem c24_disconnect_echo_refused : forall id fr rc reason,
+  exists m, FromFrame id (FDisconnect fr rc reason) = Some m
+            /\ model_out_decode (Some m) = OMsg KDisconnectNotification None
+            /\ ToFrame m = None.
+Proof. exact disconnect_echo_refused. Qed.
+Print Assumptions c24_disconnect_echo_refused.
+
+(* ---- the monitor evaluated on implementation traces ---------------------------------------------------------- *)
+
+Theorem c24_model_satisfies_monitor : forall ops, Forall wf_op ops -> C24_monitor (C24Case (map model_op ops)) = 0.
+Proof. exact model_satisfies_monitor. Qed.
+Print Assumptions c24_model_satisfies_monitor.
+
+Theorem c24_model_no_mismatch : forall ops, C24_mismatch (C24Case (map model_op ops)) = false.
+Proof. exact model_no_mismatch. Qed.
+Print Assumptions c24_model_no_mismatch.
+
+(* ---- non-vacuity ----------------------------------------------------------------------------------------------- *)
+
+(* a SEND frame with every carried field set, through the client's message and back *)
+Example c24_example_send :
+  let f := FSend (Framer true false true false true false 0 0 0%Z) 170 [107] 60 0 [110; 111] [115] [99; 104] 2 [116] [1; 2; 255] in
+  wf_frame f /\ inbound_supported f = true /\
+  match msg_of_frame [114; 49] f with
+  | Some m => ToFrame m = Some (f, [114; 49])
+  | None => False
+  end.
+Proof. cbv zeta. split; [split; reflexivity|]. split; vm_compute; reflexivity. Qed.
+
+(* message-id strings: the corners of ParseInt *)
+Example c24_example_parse_int :
+  parse_int64_value [57; 57; 57; 57; 57; 57; 57; 57; 57; 57; 57; 57; 57; 57; 57; 57; 57; 57; 57; 57; 120] = 9223372036854775807%Z
+  /\ parse_int64_value [49; 50; 120] = 0%Z /\ parse_int64_value [43; 53] = 5%Z
+  /\ parse_int64_value (format_int (-9223372036854775808)) = (-9223372036854775808)%Z.
+Proof. vm_compute. repeat split; reflexivity. Qed.
+
+(* ChannelType is an int on the JSON side and a uint8 in the frame: 300 arrives as 44 *)
+Example c24_example_channel_type_truncated : to_u8 300 = 44.
+Proof. reflexivity. Qed.
